@@ -1183,11 +1183,12 @@ impl Trailer {
             trailer.checksum = Some(block5[start + 5..start + end].to_string());
         }
 
-        if block5.contains("{TNG}") {
+        // Empty tags: accept the standard spelling with a colon as well as the bare one
+        if block5.contains("{TNG:}") || block5.contains("{TNG}") {
             trailer.test_and_training = Some(true);
         }
 
-        if block5.contains("{DLM}") {
+        if block5.contains("{DLM:}") || block5.contains("{DLM}") {
             trailer.delayed_message = Some(true);
         }
 
